@@ -6,7 +6,7 @@ import struct
 from .. import world, wire
 from ..explore import pmap, h
 from ..kernel import KLoop
-from ..peer import PlanPeer
+from ..peer import PlanPeer, D0
 from ..proto import make_protocol, _exec
 
 gp = world.gp
@@ -234,6 +234,48 @@ MIXED_CALLS = (('read_runtime_data', ()), ('read_setting', ('grid_export_limit',
                ('read_sensor', ('vpv1',)), ('write_setting', ('eco_mode_2_switch', -1)))
 
 
+TX_POLICIES = ('echo', 'const-1', 'zero', 'previous', 'plus-1', 'ffff', 'ffff-then-echo')
+
+
+def run_tx_policy(policy, ka):
+    """The ids the library puts on the wire do not depend on what the inverter puts into the transaction-id field of its
+    answers (the library does not look at it: GoodWe firmware is known to fill the MBAP header unreliably).  Twelve
+    requests of alternating kinds, every third transmission lost (retransmission), answers carrying ids by `policy`."""
+    world.reset()
+    seen = []
+
+    def plan(k, req, now):
+        try:
+            rq = wire.parse_tcp_request(req)
+        except wire.BadRequest:
+            return []
+        seen.append(rq['tx'])
+        if k % 3 == 2:
+            return []
+        fn = rq['fn']
+        pdu = bytes([3, 2 * rq['count']]) + bytes(2 * rq['count']) if fn == 3 else \
+            bytes([6]) + struct.pack('>HH', rq['reg'], rq['value']) if fn == 6 else bytes([16]) + struct.pack('>HH', rq['reg'], rq['count'])
+        tx = {'echo': rq['tx'], 'const-1': 1, 'zero': 0, 'previous': seen[-2] if len(seen) > 1 else 0x7777, 'plus-1': (rq['tx'] + 1) & 0xFFFF,
+              'ffff': 0xFFFF, 'ffff-then-echo': 0xFFFF if k < 4 else rq['tx']}[policy]
+        return [(D0, ('data', wire.mbap(struct.pack('>H', tx), rq['unit'], pdu)))]
+    peer = PlanPeer(plan)
+    loop = KLoop(peer)
+    p = make_protocol('tcp', 1, 1, ka)
+    outcomes = []
+    for i in range(12):
+        cmd = (p.read_command(0x891C + i, 2), p.write_command(47510, i), p.write_multi_command(47515, bytes(4)))[i % 3]
+        st, res = loop.run(_exec(cmd, p))
+        outcomes.append(res[0] if st != 'hang' else 'hang')
+    vio = []
+    for a, b in zip(seen, seen[1:]):
+        if a == b:
+            vio.append(('tx-id-changes/answers-carry-other-ids', f'two consecutive transmissions carry id {a}: ids {seen[:12]} (answers: {policy})'))
+            break
+    if any(x == 0 for x in seen):
+        vio.append(('tx-id-nonzero/answers-carry-other-ids', f'id 0 on the wire: {seen[:12]} (answers: {policy})'))
+    return vio, len(seen), outcomes
+
+
 def run_overlap_mixed(transport, ka, steps, calls):
     """Different public calls on ONE object at the same time: what reaches the inverter is, request for request, what the
     same calls transmit when each is made alone (as a multiset: the order between callers is free) - no caller's request is
@@ -393,6 +435,12 @@ def run(tier, seed, rep):
             for clause, cause in vio:
                 rep.add(clause, clause.split('/')[0], dict(part='overlap', callers=nc, steps=steps), dict(cause=cause))
     import itertools
+    for policy in TX_POLICIES:
+        for ka in (False, True):
+            vio, k, _ = run_tx_policy(policy, ka)
+            novl += k
+            for clause, cause in vio:
+                rep.add(f'{clause}/ka={int(ka)}', clause.split('/')[0], dict(part='tx-policy', policy=policy, ka=ka), dict(cause=cause))
     for tr in ('udp', 'tcp'):
         for ka in (False, True):
             for steps in (0, 1, 3):
@@ -463,6 +511,9 @@ def replay(r):
         vio = {}
         one(vio, r['ctor'], tuple(a))
         return dict(violations=[(k, v[0]['detail']) for k, v in vio.items()])
+    if r['part'] == 'tx-policy':
+        vio, k, oc = run_tx_policy(r['policy'], r['ka'])
+        return dict(transmissions=k, outcomes=oc, violations=vio)
     if r['part'] == 'overlap-mixed':
         vio, k = run_overlap_mixed(r['transport'], r['ka'], r['steps'], tuple((c[0], tuple(c[1])) for c in r['calls']))
         return dict(requests=k, violations=vio)
